@@ -10,7 +10,7 @@ SPEC = {
                         'bins, percentile, MAX_HITS_OKTA0 and an exclusion list that may empty a group (two ceilometers); whole '
                         'chain on <= 2 hits; layers: 30-hit group on 3 heights, rows ascending/descending in time, look-back 20/100, '
                         'any labelling / scores / minimum separation, no re-merge',
-               'thorough': 'every post-slicing shape of <= 4 hits; mixed row order; look-back 50'},
+               'thorough': 'every post-slicing shape of <= 3 hits with and without exclusion, two 4-hit shapes; mixed row order; look-back 50'},
     'outside': 'separation between layers of different groups (not in the statement); binary64 rounding; rows beyond the bound; '
                'tie-breaking of an unstable sort on equal time stamps (the pandas model sorts stably)',
     'budget_s': {'quick': 1200, 'thorough': 3600},
@@ -31,7 +31,7 @@ def h_layer(E, order, extra, lbv):
 
 HARNESSES = [
     H('H-sep-groups', h_group, quick=[('01', 4), ('01', 6), ('012', 4), ('012', 6), ('001', 6)],
-      thorough=[(sh, p) for sh in ('01', '012', '001', '011', '0012', '0122') for p in (4, 6)] + [('0123', 4)],
+      thorough=[(sh, p) for sh in ('01', '012', '001', '011') for p in (4, 6)] + [('0012', 4), ('0122', 4)],
       float_model='R', cover=['two groups reported', 'a merge happened'],
       assumptions=['state after slicing constructed directly; per-bundle clustering answers an arbitrary partition'],
       doc='real find_groups (merge loop) + metarize(groups): consecutive reported group bases at least MIN_SEP_VALS[bin of the upper one] apart'),
